@@ -111,9 +111,11 @@ class World:
         self.settings = {}   # (mgr, scen) -> settings record
         self.tainted = set()
         self.touched = []    # log of (kind, scope) for the non-triviality rule
+        # ONE scenario dictionary object is handed to both managers (a caller re-using its definition): they must not end up sharing it
+        shared_scen = {"s0": {}, "s1": {"constants": {"c1": 3.0}}, "s2": {"points": {"p2": [[0.0, 1.0], [20.0, 2.0]]}}}
         for mgr, bc in (("smA", {}), ("smB", {"c3": 0.5})):
             scen = {"s0": {}, "s1": {"constants": {"c1": 3.0}}, "s2": {"points": {"p2": [[0.0, 1.0], [20.0, 2.0]]}}}
-            spec = {"model": self.base, "scenarios": copy.deepcopy(scen)}
+            spec = {"model": self.base, "scenarios": shared_scen if vseed % 2 == 0 else copy.deepcopy(scen)}
             if bc:
                 spec["base_constants"] = dict(bc)
                 spec["base_points"] = {"p2": copy.deepcopy(BP2)}
